@@ -52,6 +52,21 @@ def gen_specs(run):
                     tags.append((pi, sname, md))
         specs.append({"id": f"c10-{sid}", "group": "ristretto" if (sid % 4 == 3 and b <= 32) else "fm", "members": [mem], "derived": derived, "verifies": verifies,
                       "_tags": tags, "_conf": [b, T], "with_gens": False})
+    # the same commitment several times in one batch under different seeds: each position must get what that (statement, seed) gets alone — recovery is
+    # keyed by the statement's own seed, not by anything remembered from a neighbour
+    for ri, (b, T) in enumerate([(2, 1), (8, 2), (4, 3)] if quick else [(2, 1), (8, 2), (4, 3), (64, 1), (1, 6), (16, 2)]):
+        mem = gen.mk_member(rng, b, 1, cap=rng.choice([1, 2]), T=T, seed=True)
+        ws_ = [gen.hx(v) for (_, v) in wrong_seeds(rng, mem["seed"])[:2]]
+        arrangements = [[mem["seed"], ws_[0]], [ws_[0], mem["seed"]], [ws_[0], ws_[1], mem["seed"]], [mem["seed"], None, ws_[1]], [mem["seed"], mem["seed"]], [ws_[0], ws_[0], None]]
+        verifies, tags = [], []
+        for sd in [mem["seed"], ws_[0], ws_[1], None]:
+            verifies.append({"mode": "RecoverAndVerify", "vmembers": [gen.vmember(mem, 0, seed=sd)]})
+            tags.append(("alone", [sd]))
+        for arr in arrangements:
+            for md in ("RecoverAndVerify", "RecoverOnly"):
+                verifies.append({"mode": md, "vmembers": [gen.vmember(mem, 0, seed=sd) for sd in arr], "log": False})
+                tags.append((md, arr))
+        specs.append({"id": f"c10-rep-{ri}", "group": "fm", "members": [mem], "verifies": verifies, "_role": "repeat", "_tags": tags, "_conf": [b, T], "with_gens": False})
     # whole batches across the internal chunks of 256: recover-only must return what recover-and-verify returns, position by position, also when a
     # whole chunk carries no seed, and the verifying modes must agree on the verdict
     pool = [gen.mk_member(rng, 2, 1, T=1, seed=True) for _ in range(2)] + [gen.mk_member(rng, 2, 1, T=1, seed=False) for _ in range(2)]
@@ -70,6 +85,27 @@ def gen_specs(run):
 
 
 def oracle(run, s, o):
+    if s.get("_role") == "repeat":
+        rp = {"kind": "session", "spec": sessions.strip(s)}
+        alone = {}
+        for (kind, arr), vo in zip(s["_tags"], o["verifies"]):
+            if kind == "alone":
+                alone[arr[0]] = (vo["result"], (vo.get("masks") or [None])[0])
+        for vi, ((kind, arr), vo) in enumerate(zip(s["_tags"], o["verifies"])):
+            if kind == "alone":
+                continue
+            run.count(["c10rep", s["_conf"][0], s["_conf"][1], kind, len(arr), vo["result"].split(":")[0]], {"same commitment repeated": len(arr), "mode": kind, "result": vo["result"][:40]})
+            run.bump("repeated-commitment batches")
+            if vo["result"] != "ok":
+                run.violation(f"a batch repeating one valid triple under different seeds is refused ({kind}): {vo['result'][:80]}", dict(rp, verify=vi))
+                continue
+            for q, sd in enumerate(arr):
+                want = alone[sd][1]
+                if vo["masks"][q] != want:
+                    run.violation(f"position {q} of a batch repeating one commitment under seeds {['right' if x == s['members'][0]['seed'] else ('none' if x is None else 'wrong') for x in arr]} "
+                                  f"({kind}) returns another result than the same (statement, seed) alone: recovery is not keyed by the statement's own seed", dict(rp, verify=vi, position=q))
+                    break
+        return
     if s.get("_role") == "chunks":
         rp = {"kind": "session", "spec": sessions.strip(s)}
         rav, ro, vo_ = o["verifies"]
